@@ -558,6 +558,8 @@ impl Scanner {
             Ok((Token::Literal(LitKind::Imag, numlit + "i"), char_count + 1))
         } else if numlit.find('.').is_some() || !exp_part.is_empty() {
             Ok((Token::Literal(LitKind::Float, numlit), char_count))
+        } else if radix == 10 && numlit.len() > 1 && numlit.starts_with('0') && numlit.contains(['8', '9']) {
+            Err(self.error_at(self.pos + char_count, "invalid digit in octal literal"))
         } else {
             Ok((Token::Literal(LitKind::Integer, numlit), char_count))
         }
